@@ -125,6 +125,11 @@ def units(tier):
     txt = "\n".join(names) + "\n"
     if not os.path.exists(p) or open(p).read() != txt:
         open(p, "w").write(txt)
+    namesf = ["/* generated: alias -> extracted function (T = float) */"] + ["#define G_%s %s" % (a, ex.names[s2]) for a, s2 in sf.items()]
+    pf = os.path.join(GEN, "c05_names_f.h")
+    tf = "\n".join(namesf) + "\n"
+    if not os.path.exists(pf) or open(pf).read() != tf:
+        open(pf, "w").write(tf)
     shape = same_shape(ex, su, sf, sd)
     EXTRACTION["c05x"] = {"functions": len(ex.order), "differential": {k: ex.diff.get(k) for k in ("tested", "cases")},
                           "skipped": ex.diff.get("skipped", []), "same_shape_unsigned_float_double": shape}
@@ -153,6 +158,15 @@ def units(tier):
         for al in aliases:
             add(a + (".alias%d" % al if al else ""), "h_" + a, f, ["VF_ALIAS=%d" % al],
                 "%s equals its textbook sum of products%s" % (s, " (aliased operands)" if al else ""), [s])
+    # spellings: relational lemmas over the real float instantiations, arithmetic uninterpreted (ABS)
+    HR = os.path.join(VERIF, "harness", "c05_rel.c")
+    for nm, fns in (("rel_mm22", ["mm22", "mmeq22"]), ("rel_mm33", ["mm33", "mmeq33"]), ("rel_mm44", ["mm44", "mmeq44", "multiply2", "multiply3"]),
+                    ("rel_vecmat", ["v3m44", "v3m44eq", "mvm44"]), ("rel_vecmat33", ["v2m33", "v2m33eq", "mvm33"]),
+                    ("rel_cross_dot", ["cross3", "crossop3", "crosseq3", "dot3", "dotop3", "cross2", "crossop2"]), ("rel_quat", ["qmul", "qmuleq"])):
+        us.append(Unit("c05." + nm, HR, "h_" + nm, includes=[GEN], backend="cvc5", mode="ABS", defines=["CXX2C_ABS_ARITH"], functions=[sf[f] for f in fns], no_checks=True,
+                       cbmc_flags=["--unwind", "17", "--no-signed-overflow-check", "--object-bits", "10"], timeout=600,
+                       clause="spellings of the same product return identical results (float instantiation; + - * / uninterpreted, so identical for any arithmetic)",
+                       replay={"src": HR, "lang": "c", "cxx": [ex.shim_cpp], "includes": [GEN] + ex.includes}))
     for n in (2, 3, 4):
         if n == 4:
             add("lemma.dettr4", "h_lemma_dettr4", clause="det(transpose A) == det(A), 4x4", fns=[su["det44"], su["tr44"]])
@@ -175,7 +189,6 @@ def extra_coverage(units, tier):
 NOT_COVERED = [
     "numeric size of the rounding bound ('within a rounding bound proportional to the sum of absolute products'): classical, not machine-checked",
     "det(A*B) == det(A)*det(B) for 4x4 (proved for 2x2 and 3x3; the 4x4 expansion exhausts z3's sum-of-monomials rewriter)",
-    "IEEE bit-identity of the operator / static / member spellings: see thorough tier (cvc5)",
 ]
 ASSUMPTIONS = [
     "RING mode: identities are proved over Z/2^32 on the template instantiated at unsigned int; multilinear identities with small coefficients that hold on all of (Z/2^32)^n hold over Z",
